@@ -33,6 +33,7 @@ def cases(seed, tier):
     q = tier == "quick"
     out = [{"fam": "synth", "seed": [seed, 11, i], "count": 4} for i in range(70 if q else 1000)]
     out += [{"fam": "lat-short", "seed": [seed, 11, 5 * 10 ** 5 + i], "count": 6} for i in range(10 if q else 150)]
+    out += [{"fam": "pendant", "seed": [seed, 11, 6 * 10 ** 5 + i], "count": 6} for i in range(6 if q else 80)]
     dumps = ["initial_furrow.dmp", "12_12/step_22.dmp"] if q else \
         ["initial_furrow.dmp", "last_furrow.dmp"] + [f"12_12/step_{i}.dmp" for i in range(20, 25)] + \
         [f"furrow_gauss_velocity/stage{i}.dmp" for i in range(8)]
@@ -398,6 +399,24 @@ def run_case(case):
                 r = realise.realise(at, k=0 if rng.random() < 0.6 else (0, 1), rng=rng, relabel=bool(rng.integers(2)), shifts=True,
                                     flips="random", edge_dirs=True)
                 _apply(r.vertices, r.edges, r.cells, int(rng.integers(2, 8)), True, mon, hist, sigs, "lat-short", len(at.cells))
+        elif fam == "pendant":
+            # a cell that hangs on the tissue by ONE vertex: its outline is one closed interface [j, ..., j]
+            for _ in range(case["count"]):
+                at = scen.base_tissue(rng, ["lat-square", "lat-hex", "lat-square"][int(rng.integers(3))])
+                ids = tissue.pendant_subset(rng, at, int(rng.integers(1, max(2, len(at.cells) - 2)))) if len(at.cells) > 3 else None
+                if ids is None:
+                    hist["no-pendant-found"] = hist.get("no-pendant-found", 0) + 1
+                    continue
+                at = at.sub(ids)
+                if rng.random() < 0.5:
+                    at = tissue.bulge(rng, at, 0.2)
+                r = realise.realise(at, k=[(1, 6), int(rng.integers(1, 9)), (0, 3)][int(rng.integers(3))], rng=rng,
+                                    relabel=bool(rng.integers(2)), shifts=True, flips="random", edge_dirs=True)
+                hist["pendant-tissues"] = hist.get("pendant-tissues", 0) + 1
+                # ne >= 3: a closed interface cannot be represented by one or two segments (the clauses of the property
+                # contradict each other there: both ends retained, at most ne+1 points, the cell kept)
+                _apply(r.vertices, r.edges, r.cells, int(rng.integers(3, 13)), bool(rng.random() < 0.5), mon, hist, sigs,
+                       "pendant", len(at.cells))
         elif fam == "se-fixture":
             from forsys import surface_evolver as se
             lat = se.SurfaceEvolver(os.path.join(FIX, case["file"]))
